@@ -89,7 +89,7 @@ def run_c16(tier, replay=None):
             "explanation": "Scheme: TLC exhausts the skipping loops for small n with an arbitrary skip per iteration. Implementation: seeded runs for n in "
                            "0..%d x 6 probabilities x both kinds judged structurally (Ok, nodes 0..n-1, no loop, no repeated pair), statistically "
                            "(mean edge count within p*pairs/(n-1) + 6 sigma; for n<=7 at p=1/2 every pair occurs with frequency in [p, p(2-p)] +- 6 sigma), "
-                           "invalid p rejected, complete_graph and karate_club_graph against their definitions." % nmax,
+                           "invalid p rejected, complete_graph (edge lists for n <= 8 / 12; counts for n = 20..257 / 1001 on either side of 64, 128, 256, 1000) and karate_club_graph against their definitions." % nmax,
         }
         rc = verdict.finish()
         write_evidence(prop, tier, "model_checking", cov, time.time() - t0, len(verdict.violations),
